@@ -19,7 +19,9 @@ CONSTANTS Pods, Reqs, Slots, Addrs, Cap, Batch, MaxIdle,
           FixCollector,    \* D5 : Manager.Allocate forwards a received result even if the context is done
           FixPinned,       \* D13: an empty slot refuses a request pinned to an interface
           FixKeep,         \* D14: a cancelled repeated ADD keeps the address the pod already holds
-          FixDangling      \* D17: canDispose counts waiters whose job was popped (danging)
+          FixDangling,     \* D17: canDispose counts waiters whose job was popped (danging)
+          FixABA,          \* D12: an address re-assigned by the cloud while a pod still holds it keeps its owner
+          DriftOn          \* environment: addresses may be removed remotely (and the periodic sync runs)
 
 NoIP == [owner |-> 0, st |-> "none", primary |-> FALSE]
 
@@ -31,9 +33,10 @@ VARIABLES cloud,   \* cloud[s]: set of addresses the cloud has on the interface 
           dang,    \* dang[s]: requests whose job was popped (danging) and that still wait for an address
           fop,     \* fop[s]: factory call in flight: [k |-> "none"|"create"|"assign"|"unassign"|"delete", n, addrs]
           req,     \* req[r]: [pc, pod, pin, slot, addr, keep, cancelled, res]
-          held     \* held[p]: <<slot, addr>> the daemon was told pod p holds, or <<0, 0>>
+          held,    \* held[p]: <<slot, addr>> the daemon was told pod p holds, or <<0, 0>>
+          gone     \* history: <<slot, addr>> pairs removed remotely since they were last assigned
 
-vars == <<cloud, eni, status, ips, queue, dang, fop, req, held>>
+vars == <<cloud, eni, status, ips, queue, dang, fop, req, held, gone>>
 
 NoReq == [pc |-> "new", pod |-> 0, pin |-> 0, slot |-> 0, addr |-> 0, keep |-> FALSE, cancelled |-> FALSE, res |-> 0]
 NoOp  == [k |-> "none", n |-> 0, addrs |-> {}]
@@ -56,6 +59,7 @@ Init == /\ cloud = [s \in Slots |-> {}] /\ eni = [s \in Slots |-> FALSE]
         /\ fop = [s \in Slots |-> NoOp]
         /\ req = [r \in Reqs |-> NoReq]
         /\ held = [p \in Pods |-> <<0, 0>>]
+        /\ gone = {}
 
 (* ------------------------------------------------------------------ Manager.Allocate: offer to the slots *)
 (* Local.Allocate on slot s for request r of pod p pinned to interface of slot pin (0: not pinned).          *)
@@ -81,11 +85,11 @@ Call(r, p) ==
                 ELSE /\ queue' = [queue EXCEPT ![s] = @ \cup {r}]
                      /\ req' = [req EXCEPT ![r] = [NoReq EXCEPT !.pc = "queued", !.pod = p, !.pin = pin, !.slot = s]]
                      /\ UNCHANGED ips
-    /\ UNCHANGED <<cloud, eni, status, dang, fop, held>>
+    /\ UNCHANGED <<cloud, eni, status, dang, fop, held, gone>>
 
 Cancel(r) == /\ req[r].pc \in {"direct", "queued", "sent"} /\ ~req[r].cancelled
              /\ req' = [req EXCEPT ![r].cancelled = TRUE]
-             /\ UNCHANGED <<cloud, eni, status, ips, queue, dang, fop, held>>
+             /\ UNCHANGED <<cloud, eni, status, ips, queue, dang, fop, held, gone>>
 
 (* commit / commitKeep: select { ctx.Done -> release and close | send } ; with both ready Go picks either *)
 CommitOutcome(r, s, a, keep) ==
@@ -98,7 +102,7 @@ CommitOutcome(r, s, a, keep) ==
 CommitDirect(r) ==
     /\ req[r].pc = "direct"
     /\ CommitOutcome(r, req[r].slot, req[r].addr, req[r].keep)
-    /\ UNCHANGED <<cloud, eni, status, queue, dang, fop, held>>
+    /\ UNCHANGED <<cloud, eni, status, queue, dang, fop, held, gone>>
 
 (* allocWorker: under the lock, ctx check first, then peek + commit in one critical section; on exit the request *)
 (* leaves the queues (switchIPv4 may move one danging request back into the queue)                               *)
@@ -119,7 +123,7 @@ WorkerStep(r) ==
                 \/ /\ ips' = [ips EXCEPT ![s][a].owner = p]                   \* commit: send
                    /\ req' = [req EXCEPT ![r].pc = "sent", ![r].addr = a]
                    /\ WorkerExit(s, r)
-    /\ UNCHANGED <<cloud, eni, status, fop, held>>
+    /\ UNCHANGED <<cloud, eni, status, fop, held, gone>>
 
 (* the manager's per-request goroutine: select { ctx.Done | recv } then forwards to the collector *)
 MgrRecv(r) ==
@@ -132,7 +136,7 @@ MgrRecv(r) ==
           /\ req' = [req EXCEPT ![r].pc = "got", ![r].res = 0]
        \/ /\ req[r].cancelled /\ req[r].pc \in {"direct", "queued"}                     \* ctx.Done wins, nothing received
           /\ req' = [req EXCEPT ![r].pc = IF @ = "direct" THEN "abandonedD" ELSE "abandonedQ"]
-    /\ UNCHANGED <<cloud, eni, status, ips, queue, dang, fop, held>>
+    /\ UNCHANGED <<cloud, eni, status, ips, queue, dang, fop, held, gone>>
 
 (* an abandoned request's pool-side goroutine still runs: it sees ctx.Done *)
 AbandonedFinish(r) ==
@@ -143,7 +147,7 @@ AbandonedFinish(r) ==
             /\ UNCHANGED <<queue, dang>>
        ELSE /\ WorkerExit(s, r) /\ UNCHANGED ips
     /\ req' = [req EXCEPT ![r].pc = "got", ![r].res = 0]
-    /\ UNCHANGED <<cloud, eni, status, fop, held>>
+    /\ UNCHANGED <<cloud, eni, status, fop, held, gone>>
 
 (* Manager.Allocate returns to the daemon.  Success only without error; with an error the daemon rolls back what *)
 (* the call returned (AllocIP: eniMgr.Release(resp)).                                                            *)
@@ -156,14 +160,14 @@ Return(r) ==
        ELSE /\ ips' = IF a # 0 THEN [ips EXCEPT ![s][a].owner = IF @ = p THEN 0 ELSE @] ELSE ips   \* roll-back release
             /\ held' = IF a # 0 /\ held[p] = <<s, a>> THEN [held EXCEPT ![p] = <<0, 0>>] ELSE held
     /\ req' = [req EXCEPT ![r].pc = "done"]
-    /\ UNCHANGED <<cloud, eni, status, queue, dang, fop>>
+    /\ UNCHANGED <<cloud, eni, status, queue, dang, fop, gone>>
 
 Release(p) ==
     /\ held[p] # <<0, 0>> /\ \A q \in Reqs : req[q].pod = p => req[q].pc \in {"new", "done"}
     /\ LET s == held[p][1]  a == held[p][2] IN
        ips' = IF eni[s] THEN [ips EXCEPT ![s][a].owner = IF @ = p THEN 0 ELSE @] ELSE ips
     /\ held' = [held EXCEPT ![p] = <<0, 0>>]
-    /\ UNCHANGED <<cloud, eni, status, queue, dang, fop, req>>
+    /\ UNCHANGED <<cloud, eni, status, queue, dang, fop, req, gone>>
 
 (* ------------------------------------------------------------------ factoryAllocWorker *)
 FactoryBegin(s) ==
@@ -173,7 +177,7 @@ FactoryBegin(s) ==
             /\ fop' = [fop EXCEPT ![s] = [k |-> "create", n |-> IF Cardinality(LiveQ(s)) < Batch THEN Cardinality(LiveQ(s)) ELSE Batch, addrs |-> {}]]
        ELSE /\ fop' = [fop EXCEPT ![s] = [k |-> "assign", n |-> IF Cardinality(LiveQ(s)) < Batch THEN Cardinality(LiveQ(s)) ELSE Batch, addrs |-> {}]]
             /\ UNCHANGED status
-    /\ UNCHANGED <<cloud, eni, ips, queue, dang, req, held>>
+    /\ UNCHANGED <<cloud, eni, ips, queue, dang, req, held, gone>>
 
 PopJobs(s, n) ==   \* popNIPv4Jobs: the first n jobs move to danging (order abstracted: any n)
     \E J \in SUBSET queue[s] : /\ Cardinality(J) = (IF Cardinality(queue[s]) < n THEN Cardinality(queue[s]) ELSE n)
@@ -188,13 +192,15 @@ FactoryEnd(s) ==
                 /\ Cardinality(A) = fop[s].n
                 /\ cloud' = [cloud EXCEPT ![s] = @ \cup A]
                 /\ ips' = [ips EXCEPT ![s] = [a \in Addrs |-> IF a \in A
-                               THEN [owner |-> 0, st |-> "valid", primary |-> (fop[s].k = "create" /\ a = CHOOSE m \in A : \A x \in A : m <= x)]
+                               THEN (IF FixABA /\ ips[s][a].owner # 0 THEN [ips[s][a] EXCEPT !.st = "valid"]   \* PutValid keeps an address in use
+                                     ELSE [owner |-> 0, st |-> "valid", primary |-> (fop[s].k = "create" /\ a = CHOOSE m \in A : \A x \in A : m <= x)])
                                ELSE @[a]]]
+                /\ gone' = gone \ { <<s, a>> : a \in A }
                 /\ eni' = [eni EXCEPT ![s] = TRUE]
                 /\ status' = [status EXCEPT ![s] = "inUse"]
                 /\ PopJobs(s, fop[s].n)
          ELSE /\ status' = [status EXCEPT ![s] = IF fop[s].k = "create" THEN "init" ELSE @]     \* failed before any effect
-              /\ UNCHANGED <<cloud, ips, eni, queue, dang>>
+              /\ UNCHANGED <<cloud, ips, eni, queue, dang, gone>>
     /\ fop' = [fop EXCEPT ![s] = NoOp]
     /\ UNCHANGED <<req, held>>
 
@@ -209,7 +215,7 @@ Dispose(s) ==
        \/ \E a \in Idle(s) : /\ ~ips[s][a].primary /\ ips[s][a].st \in {"valid", "invalid"}  \* one idle address
                              /\ ips' = [ips EXCEPT ![s][a].st = "deleting"]
                              /\ UNCHANGED status
-    /\ UNCHANGED <<cloud, eni, queue, dang, fop, req, held>>
+    /\ UNCHANGED <<cloud, eni, queue, dang, fop, req, held, gone>>
 
 DisposeBegin(s) ==
     /\ fop[s] = NoOp /\ eni[s]
@@ -219,7 +225,7 @@ DisposeBegin(s) ==
        ELSE LET D == { a \in Tracked(s) : ips[s][a].st = "deleting" } IN
             /\ D # {}
             /\ fop' = [fop EXCEPT ![s] = [k |-> "unassign", n |-> 0, addrs |-> D]]
-    /\ UNCHANGED <<cloud, eni, status, ips, queue, dang, req, held>>
+    /\ UNCHANGED <<cloud, eni, status, ips, queue, dang, req, held, gone>>
 
 DisposeEnd(s) ==
     /\ fop[s].k \in {"unassign", "delete"}
@@ -232,12 +238,26 @@ DisposeEnd(s) ==
             /\ eni' = [eni EXCEPT ![s] = FALSE]
             /\ status' = [status EXCEPT ![s] = "init"]
     /\ fop' = [fop EXCEPT ![s] = NoOp]
-    /\ UNCHANGED <<queue, dang, req, held>>
+    /\ UNCHANGED <<queue, dang, req, held, gone>>
+
+(* ------------------------------------------------------------------ environment drift and the periodic sync *)
+RemoteRemove(s) ==
+    /\ DriftOn /\ eni[s] /\ Cardinality(gone) < 1
+    /\ \E a \in cloud[s] : /\ ~ips[s][a].primary
+                           /\ cloud' = [cloud EXCEPT ![s] = @ \ {a}]
+                           /\ gone' = gone \cup {<<s, a>>}
+    /\ UNCHANGED <<eni, status, ips, queue, dang, fop, req, held>>
+
+Sync(s) ==
+    /\ DriftOn /\ eni[s] /\ status[s] = "inUse"
+    /\ ips' = [ips EXCEPT ![s] = [a \in Addrs |-> IF @[a].st = "valid" /\ a \notin cloud[s] THEN [@[a] EXCEPT !.st = "invalid"] ELSE @[a]]]
+    /\ ips' # ips
+    /\ UNCHANGED <<cloud, eni, status, queue, dang, fop, req, held, gone>>
 
 Next == \/ \E r \in Reqs, p \in Pods : Call(r, p)
         \/ \E r \in Reqs : Cancel(r) \/ CommitDirect(r) \/ WorkerStep(r) \/ MgrRecv(r) \/ AbandonedFinish(r) \/ Return(r)
         \/ \E p \in Pods : Release(p)
-        \/ \E s \in Slots : FactoryBegin(s) \/ FactoryEnd(s) \/ Dispose(s) \/ DisposeBegin(s) \/ DisposeEnd(s)
+        \/ \E s \in Slots : FactoryBegin(s) \/ FactoryEnd(s) \/ Dispose(s) \/ DisposeBegin(s) \/ DisposeEnd(s) \/ RemoteRemove(s) \/ Sync(s)
 
 Spec == Init /\ [][Next]_vars
 
@@ -248,10 +268,10 @@ Exclusive == \A p, q \in Pods : p # q /\ held[p] # <<0, 0>> => held[p] # held[q]
 NeverUnassignHeld == \A s \in Slots, p \in Pods : fop[s].k = "unassign" /\ held[p][1] = s => held[p][2] \notin fop[s].addrs
 NeverDeleteInUse == \A s \in Slots, p \in Pods : fop[s].k = "delete" => held[p][1] # s
 (* C01/C06: a held address is backed by the cloud *)
-HeldBacked == \A p \in Pods : held[p] # <<0, 0>> => held[p][2] \in cloud[held[p][1]]
+HeldBacked == \A p \in Pods : held[p] # <<0, 0>> => held[p][2] \in cloud[held[p][1]] \/ held[p] \in gone
 QuotaAddr == \A s \in Slots : Cardinality(cloud[s]) <= Cap
 (* C07: at quiescence (no request open, no factory call in flight) no address is owned by a pod that holds none *)
 Quiet == (\A r \in Reqs : req[r].pc \in {"new", "done"}) /\ (\A s \in Slots : fop[s] = NoOp)
 NoGhostOwner == Quiet => \A s \in Slots, a \in Addrs : ips[s][a].owner # 0 => held[ips[s][a].owner] = <<s, a>>
-TrackedEqualsCloud == Quiet => \A s \in Slots : Tracked(s) = cloud[s]
+TrackedEqualsCloud == Quiet /\ ~DriftOn => \A s \in Slots : Tracked(s) = cloud[s]
 =============================================================================
